@@ -128,6 +128,19 @@ func (c *ctx) commandCases(kind string, n int) {
 			case mode == 1: // a corrupted frame before the acknowledge: the command fails with the rejection
 				stream = append(stream, c.mutate(c.unrelatedFrame(ack))...)
 				stream = append(stream, xsens.NewMessage(ack, c.ackPayload(o.name))...)
+			case mode == 2: // the acknowledge itself damaged behind an intact header (payload or checksum byte), then a good one
+				bad := []byte(xsens.NewMessage(ack, c.ackPayload(o.name)))
+				pos := len(bad) - 1
+				if len(bad) > 5 && c.rng.Intn(2) == 0 {
+					pos = 4 + c.rng.Intn(len(bad)-5)
+				}
+				bad[pos] += byte(1 + c.rng.Intn(255))
+				stream = append(stream, bad...)
+				stream = append(stream, xsens.NewMessage(ack, c.ackPayload(o.name))...)
+			case mode == 3: // the largest frames a device may send, unrelated, in front of the acknowledge
+				big := []int{2046, 2047, 2048}[c.rng.Intn(3)]
+				stream = append(stream, xsens.NewMessage(xsens.MessageIdentifier(0x3e), c.payload(big))...)
+				stream = append(stream, xsens.NewMessage(ack, c.ackPayload(o.name))...)
 			default:
 				stream = append(stream, xsens.NewMessage(ack, c.ackPayload(o.name))...)
 			}
@@ -287,6 +300,9 @@ func init() {
 				c.emitClient("client", stream, nil, io.EOF, false, nil, ops)
 			}
 		}
+		// the decoders on arbitrary payloads into receivers in every prior state (a decoder must not panic because of what an
+		// earlier call left behind): the C13 sequences
+		c.ocUnmarshalSequences(c.pick(40, 400))
 	}
 	props["C10"] = func(c *ctx) {
 		c.failureCases("client10", c.pick(12, 120))
